@@ -18,6 +18,7 @@ import (
 )
 
 type World struct {
+	pureCache map[*ssa.Function]int // purity.go: 1 pure, 2 impure, 3 in progress
 	RepoDir   string
 	VerifDir  string
 	Module    string
